@@ -31,8 +31,17 @@ def gen(prop):
         os.unlink(os.path.join(outdir, f))
     n = 0
     for m in load_specs(prop):
-        name, expect, what, edits = m["name"], m["expect"], m.get("what", ""), m["edits"]
+        name, expect, what, edits = m["name"], m["expect"], m.get("what", ""), m.get("edits", [])
         files = {}
+        if m.get("patch_file"):
+            # a stored patch (a seeded change kept under /verif/seeded) is the control as it is
+            shutil.copy(os.path.join(VERIF, m["patch_file"]), os.path.join(outdir, name + ".patch"))
+            meta = {"property": prop, "name": name, "expect": expect, "what": what}
+            if m.get("expect_silent"):
+                meta["expect_silent"] = True
+            open(os.path.join(outdir, name + ".json"), "w").write(json.dumps(meta, indent=1) + "\n")
+            n += 1
+            continue
         if m.get("base"):
             # start from a refactored variant: the named diff (relative to /verif) is applied first
             base = os.path.join(VERIF, m["base"])
